@@ -1,7 +1,7 @@
 (* C04 — Serialization yields the JSON image prescribed by the type.
    Model: Ser/Model.v; declarative image and omission rule: Ser/Spec.v. *)
 From Coq Require Import List String ZArith Bool.
-From AV Require Import Core.Json Core.Errors Deser.Model Ser.Model Ser.Spec Ser.Unfold Ser.Proofs.
+From AV Require Import Core.Json Core.Errors Deser.Model Ser.Model Ser.Spec Ser.Unfold Ser.Proofs Ser.RoundTripInd Ser.CompileProofs.
 Import ListNotations.
 
 (* the 2^k omission table, as one statement: whatever strategy is compiled for a field (IdentityField, SimpleField,
@@ -48,3 +48,38 @@ Theorem C04_object_method_is_the_field_loop :
   sexec u o fuel (SObj fs) v = match fields_loop (sexec u o fuel) v fs [] with inl acc => SROk (VDict acc) | inr e => e end.
 Proof. exact sexec_SObj. Qed.
 Print Assumptions C04_object_method_is_the_field_loop.
+
+(* THE COMPILER-CORRECTNESS STATEMENT.  The method tree compiled for a type (identity / check-only / list / dict shortcuts
+   under no_copy, tuple, mapping, Optional and union dispatch by runtime class with the n-tuple check, enum value, Any by
+   runtime class, object methods with their field strategies and ordering, simple-object fast path) computes, on every
+   well-typed value and for every amount of fuel, the documented image (Ser/Spec.v: no strategies, one rule per type):
+   same JSON value, or both fail, or both run out of fuel.
+   Conditions: no pass-through option (C08 covers them); unions have alternatives with pairwise disjoint runtime classes
+   (du_ty / du_univ: otherwise a failing first alternative hands an ill-typed value to the next); the constant results of
+   serialized methods have their declared type; TypedDicts do not track unset fields and their additional properties
+   (arbitrary values) are not serialized. *)
+Theorem C04_compiled_serializer_computes_the_image :
+  forall u o,
+  no_pass_through o = true ->
+  (forall c, is_typed_dict (get_cls u c) = true -> cd_fields_set (get_cls u c) = false) ->
+  du_univ u ->
+  (forall c sm, In sm (cd_methods (get_cls u c)) ->
+     ((sm_undefined sm && is_vundef (sm_result sm)) || (so_excl_none o && ty_has_none (sm_ty sm) && is_vnone (sm_result sm)))%bool = true
+     \/ exists m, has_type u m (sm_ty sm) (sm_result sm) = true) ->
+  (forall c, (is_typed_dict (get_cls u c) && so_addprops o)%bool = false) ->
+  forall fuel t n v, du_ty u t = true -> has_type u n t v = true ->
+  sim (serialize u o fuel t v) (image u o fuel t v).
+Proof. exact compile_correct. Qed.
+Print Assumptions C04_compiled_serializer_computes_the_image.
+
+(* the same with executable hypotheses only: what the run evaluates on every generated case *)
+Theorem C04_compiled_serializer_computes_the_image_checked :
+  forall u o mf fuel n t v, cc_hyps u o mf n t v = true -> sim (serialize u o fuel t v) (image u o fuel t v).
+Proof. exact compile_correct_checked. Qed.
+Print Assumptions C04_compiled_serializer_computes_the_image_checked.
+
+(* satisfiable: a recursive dataclass with an Optional self reference skipped when default, list, tuple, mapping of unions, a
+   serialized method, under exclude_defaults + no_copy and a dynamic aliaser *)
+Theorem C04_hypotheses_satisfiable : cc_hyps cc_ex_univ cc_ex_opts 5 3 (TObj 0) cc_ex_value = true.
+Proof. exact cc_ex_hyps. Qed.
+Print Assumptions C04_hypotheses_satisfiable.
